@@ -62,9 +62,14 @@ def run(ctx, report: Report) -> None:
     for key, e in sorted(esc.items()):
         exc, origin, where = key
         if e.kind == 'raise':
-            ok = exc in ALLOWED or (exc, origin) in DOCUMENTED
+            doc = DOCUMENTED.get((exc, origin))
+            if doc is None and exc == 'TypeError' and origin.startswith('css_types.') and any(
+                    p.startswith('css_types.') and p.endswith('._validate') for p in tuple(e.path) + (origin,)):
+                # the argument validation of the immutable maps, wherever its body lives
+                doc = 'map entries that are not str / not hashable: outside the domain (str -> str maps)'
+            ok = exc in ALLOWED or doc is not None
             r1.instance({'raise': e.text[:80], 'type': exc, 'in': origin,
-                         'status': 'allowed' if exc in ALLOWED else DOCUMENTED.get((exc, origin), 'UNDOCUMENTED')},
+                         'status': 'allowed' if exc in ALLOWED else (doc or 'UNDOCUMENTED')},
                         key=f'{origin}|{exc}|{e.text[:50]}')
             r1.obligation(ok)
             if not ok:
